@@ -71,7 +71,8 @@ static int reply_handler(void *arg, const struct message *msg)
 	sep();
 	snprintf(t, sizeof(t), "h%ld(", (long) (intptr_t) arg);
 	lg(t); lgmsg(msg); lg(")");
-	return 0;
+	/* tags from 900000 on: a command that reports failure */
+	return (intptr_t) arg >= 900000 ? -1 : 0;
 }
 /* handler for everything that is not a reply */
 static int event_handler(void *arg, event *ev)
